@@ -384,13 +384,52 @@ impl Generator {
             self.view().len() >= 2 && at(self.view(), 0) == Kind::String && at(self.view(), 1) == Kind::String
     }
 
+
+    /// C12: one concrete, reachable state per opcode in which its guard must say yes (no opcode is dead).
+    /// The states are the end states of the witness traces listed in contracts/witnesses.md; every
+    /// witness trace consists of unconditionally valid opcodes (value pushers, MARK) and of opcodes
+    /// executed exactly in their own witness state.
+    pub open spec fn witness(&self, op: OpcodeKind) -> bool {
+        let v = self.view();
+        let none1 = seq![Kind::None];
+        match op {
+            OpcodeKind::Pop | OpcodeKind::Dup | OpcodeKind::Tuple1 | OpcodeKind::BinPersID => v == none1,
+            OpcodeKind::Put | OpcodeKind::LongBinPut | OpcodeKind::Memoize => v == none1,
+            OpcodeKind::BinPut => v == none1 && self.state.memo@.len() < 256,
+            OpcodeKind::Append => v == seq![Kind::List, Kind::None],
+            OpcodeKind::Appends => v == seq![Kind::List, Kind::Mark, Kind::None],
+            OpcodeKind::SetItem => v == seq![Kind::Dict, Kind::None, Kind::None],
+            OpcodeKind::SetItems => v == seq![Kind::Dict, Kind::Mark, Kind::None, Kind::None],
+            OpcodeKind::AddItems => v == seq![Kind::Set, Kind::Mark, Kind::None],
+            OpcodeKind::Tuple | OpcodeKind::List | OpcodeKind::FrozenSet | OpcodeKind::PopMark => v == seq![Kind::Mark],
+            OpcodeKind::Dict => v == seq![Kind::Mark, Kind::None, Kind::None],
+            OpcodeKind::Tuple2 => v == seq![Kind::None, Kind::None],
+            OpcodeKind::Tuple3 => v == seq![Kind::None, Kind::None, Kind::None],
+            OpcodeKind::Reduce | OpcodeKind::NewObj => v == seq![Kind::Callable, Kind::Tuple],
+            OpcodeKind::NewObjEx => v == seq![Kind::Callable, Kind::Tuple, Kind::Dict],
+            OpcodeKind::Build => v == seq![Kind::Instance, Kind::Tuple],
+            OpcodeKind::Inst => v == seq![Kind::Mark, Kind::None],
+            OpcodeKind::Obj => v == seq![Kind::Mark, Kind::Callable],
+            OpcodeKind::Get | OpcodeKind::BinGet | OpcodeKind::LongBinGet => self.state.memo@.len() > 0,
+            OpcodeKind::StackGlobal => v == seq![Kind::String, Kind::String],
+            OpcodeKind::Proto => !self.state.proto_emitted,
+            OpcodeKind::Ext1 | OpcodeKind::Ext2 | OpcodeKind::Ext4 => self.allow_ext_opcodes,
+            OpcodeKind::NextBuffer => self.allow_buffer_opcodes,
+            OpcodeKind::ReadOnlyBuffer => self.allow_buffer_opcodes && v == none1,
+            // never offered during generation: STOP ends every pickle, FRAME is back-patched
+            OpcodeKind::Stop | OpcodeKind::Frame => false,
+            // value pushers and MARK: valid in every state
+            _ => true,
+        }
+    }
+
 //@arms src/generator/validation.rs Generator::can_emit opcode
 //@ret res
 //@ghost Ghost(r): Ghost<RefState>
 //@rewrite R11?
 //@prelude
         proof { lemma_top_mark_compat(self.view(), r.stack); lemma_top_mark_props(r.stack); }
-//@props C01 C02 C03 C05 C06 C10 C17 C09
+//@props C01 C02 C03 C05 C06 C10 C12 C17 C09
 //@contract
     requires
         self.rel(r),
@@ -407,6 +446,7 @@ impl Generator {
         res ==> self.sim_pre(opcode), // @C17
         res ==> self.guard_ok(opcode, r),
         opcode == OpcodeKind::None ==> res, // @C11 @C12
+        self.witness(opcode) ==> res, // @C12
 //@arm SetItems
 //@prelude
         assert(self.view().len() == r.stack.len());
